@@ -18,8 +18,10 @@ Record dcfg := mk_dcfg {
   c_pkt_cb : bool;             (* a packet callback is registered (=> header time is rewritten) *)
   c_tz : Z;                    (* seconds east of UTC of the process time zone (fixed offset) *)
   c_user : Z; c_tail : Z;      (* input_param.user_layer_bytes / tail_layer_bytes *)
-  c_from_file : bool           (* decoder_param.config_from_file (debugging aid) with an angle file that cannot be read: the
+  c_from_file : bool;          (* decoder_param.config_from_file (debugging aid) with an angle file that cannot be read: the
                                   constructor clears wait_for_difop and no DIFOP packet ever loads calibration *)
+  c_dst : list (Z * Z)         (* daylight-saving periods [a, b) of the process time zone, in UTC seconds (none: fixed offset c_tz);
+                                  during them local time is c_tz + 3600. A fact of the environment (zone database), like the host clock *)
 }.
 
 (* ---------------------------------------------------------------- points *)
@@ -127,6 +129,18 @@ Definition create_ymd (tz : Z) (usec : Z) : bytes :=
   let days := sec / 86400 in let rem := sec mod 86400 in
   let '(y, m, dd) := civil_from_days days in
   [ (y - 2000) mod 256; m; dd; rem / 3600; (rem mod 3600) / 60; rem mod 60 ] ++ be_bytes 2 ms ++ be_bytes 2 us.
+
+(* ---- zones with daylight saving *)
+Definition DST_SAVE := 3600.
+Definition in_dst (dst : list (Z * Z)) (s : Z) : bool := existsb (fun ab => (fst ab <=? s) && (s <? snd ab)) dst.
+(* createTimeYMD: localtime() applies the offset in force at the instant *)
+Definition create_ymd_z (tz : Z) (dst : list (Z * Z)) (usec : Z) : bytes :=
+  create_ymd (if in_dst dst (usec / 1000000) then tz + DST_SAVE else tz) usec.
+(* parseTimeYMD: mktime() with tm_isdst = -1 decides itself whether the calendar time is daylight time: it is, if read as
+   daylight time it falls into a daylight period (times inside the hour skipped in spring are read as standard time) *)
+Definition parse_ymd_z (tz : Z) (dst : list (Z * Z)) (b : bytes) (off : Z) : Z :=
+  let t_dst := parse_ymd (tz + DST_SAVE) b off in
+  if in_dst dst (t_dst / 1000000) then t_dst else parse_ymd tz b off.
 
 Definition parse_utc (b : bytes) (off : Z) : Z :=
   (be48 b off * 1000000 + be32 b (off + 6)) mod 18446744073709551616.
@@ -388,10 +402,10 @@ Definition pkt_time (d : desc) (c : dcfg) (variant : Z) (b : bytes) (base : Z) (
   let off := base + d_off_ts d in
   if c_lidar_clock c then
     let sb := skipn (Z.to_nat base) b in    (* header reads relative to the (sub) packet *)
-    ((if uses_utc d variant then parse_utc sb (d_off_ts d) else parse_ymd (c_tz c) sb (d_off_ts d)) * 1000, b)
+    ((if uses_utc d variant then parse_utc sb (d_off_ts d) else parse_ymd_z (c_tz c) (c_dst c) sb (d_off_ts d)) * 1000, b)
   else
     let ts_ns := (match d_family d with Mech => host1 | Mems => host2 end) * 1000 - d_packet_duration_ns d in
-    (ts_ns, if c_pkt_cb c then splice b off (if uses_utc d variant then create_utc host1 else create_ymd (c_tz c) host1) else b).
+    (ts_ns, if c_pkt_cb c then splice b off (if uses_utc d variant then create_utc host1 else create_ymd_z (c_tz c) (c_dst c) host1) else b).
 
 Record msop_result := mk_msop_result {
   mr_state : dstate; mr_blocks : list blk_out; mr_ret : bool; mr_bad_blkid : bool; mr_bytes : bytes;
